@@ -103,7 +103,7 @@ def locate(m, x, tol=1e-9, boxes=None):
     return out
 
 
-def basic_validity(ctx, m, sig, ref_scale=None):
+def basic_validity(ctx, m, sig, ref_scale=None, allow_unused=0):
     """no duplicate/unused vertices, positive measures, every facet has <= 2 cells"""
     nl = nlocal(m)
     t = m.t[:nl]
@@ -113,7 +113,7 @@ def basic_validity(ctx, m, sig, ref_scale=None):
     if len(cols) != P.shape[1]:
         ctx.fail('duplicate_vertices', f'{P.shape[1] - len(cols)} duplicated coordinates', **sig)
     used = np.unique(t)
-    if len(used) != nv or (len(used) and used[-1] != nv - 1):
+    if not (nv - allow_unused <= len(used) <= nv) or (len(used) and used[-1] != nv - 1):
         ctx.fail('unused_vertices', f'{nv} vertices, {len(used)} used', **sig)
     vol = cell_measures(m)
     ref = ref_scale if ref_scale is not None else (vol.max() if len(vol) else 1.0)
